@@ -139,7 +139,7 @@ inductive Term where
   | eof                    -- the stream has ended
   | more                   -- not known yet: more input is needed
   | err (e : Err)          -- the stream ends by raising `e`
-  deriving Repr, BEq, Inhabited
+  deriving Repr, DecidableEq, Inhabited
 
 structure Tr where
   items : List V
@@ -177,8 +177,12 @@ def Src.pfx (s : Src) (n : Nat) : Tr :=
 /-- outputs determined by the first `n` source items -/
 def det (kinds : List Kind) (src : Src) (n : Nat) : Tr := pipeTr kinds (src.pfx n)
 
+def Term.isMore : Term → Bool
+  | .more => true
+  | _ => false
+
 /-- a request for `k` outputs can be answered: `k` items are determined, or the end is -/
-def Tr.answers (d : Tr) (k : Nat) : Bool := d.items.length ≥ k || d.term != .more
+def Tr.answers (d : Tr) (k : Nat) : Bool := d.items.length ≥ k || !d.term.isMore
 
 /-- least `n ≥ start` that satisfies `p` or reaches `bound` (`fuel` bounds the search) -/
 def leastFrom (p : Nat → Bool) (bound : Nat) : Nat → Nat → Nat
@@ -191,7 +195,7 @@ def needFrom (kinds : List Kind) (src : Src) (bound k start : Nat) : Nat :=
 
 /-- number of source items needed until the end of the stream is determined -/
 def needEndFrom (kinds : List Kind) (src : Src) (bound start : Nat) : Nat :=
-  leastFrom (fun n => (det kinds src n).term != .more) bound (bound + 1) start
+  leastFrom (fun n => !(det kinds src n).term.isMore) bound (bound + 1) start
 
 /-- source items `glomit` itself pulls: each `windowed(size)` stage, when it is built, asks
     the chain below it (`before`) for `size - 1` items -/
@@ -203,15 +207,14 @@ def primeScan (src : Src) (bound : Nat) : List Kind → List Kind → Nat → Na
 
 def primeNeed (kinds : List Kind) (src : Src) (bound : Nat) : Nat := primeScan src bound [] kinds 0
 
-/-- `glomit` raises when a `windowed` stage, advancing its tees, meets an error of the
-    chain below it -/
-def primeErr (src : Src) (bound : Nat) : List Kind → List Kind → Option Err
-  | _, [] => none
+/-- exceptions `glomit` itself may raise: a `windowed` stage, advancing its tees, meets an
+    error of the chain below it before it has its `size - 1` items -/
+def primeErrs (src : Src) (bound : Nat) : List Kind → List Kind → List Err
+  | _, [] => []
   | before, k :: after =>
-    let d := det before src bound
-    match (if k.primeCount > d.items.length then (match d.term with | .err e => some e | _ => none) else none) with
-    | some e => some e
-    | none => primeErr src bound (before ++ [k]) after
+    (if (det before src bound).items.length < k.primeCount then
+      (match (det before src bound).term with | .err e => [e] | _ => []) else []) ++
+    primeErrs src bound (before ++ [k]) after
 
 /-! ### 3. observations and the checker -/
 
@@ -239,24 +242,22 @@ def srcLen : Src → Nat
     source items were pulled than `k` outputs (or `glomit`'s window priming) need -/
 def checkTake (kinds : List Kind) (src : Src) (k : Nat) (o : TakeObs) : Bool :=
   let n := srcLen src
-  match primeErr src n [] kinds with
-  | some e => o.items.isEmpty && o.fin == .raised e && o.pulls ≤ primeNeed kinds src n
-  | none =>
-    let full := det kinds src n
-    o.items == full.items.take k &&
+  let full := det kinds src n
+  (o.items == full.items.take k &&
     o.fin == (if full.items.length ≥ k then .gotK else finOfTerm full.term) &&
-    o.pulls ≤ needFrom kinds src n k (primeNeed kinds src n)
+    o.pulls ≤ needFrom kinds src n k (primeNeed kinds src n))
+  || (o.items.isEmpty && o.pulls ≤ primeNeed kinds src n &&
+    (match o.fin with | .raised e => (primeErrs src n [] kinds).contains e | _ => false))
 
 /-- `Iter.all()`: every item, then the end -/
 def checkAll (kinds : List Kind) (src : Src) (o : TakeObs) : Bool :=
   let n := srcLen src
-  match primeErr src n [] kinds with
-  | some e => o.fin == .raised e
-  | none =>
-    let full := det kinds src n
-    o.fin == finOfTerm full.term &&
+  let full := det kinds src n
+  (o.fin == finOfTerm full.term &&
     (o.fin != .exhausted || o.items == full.items) &&
-    o.pulls ≤ needEndFrom kinds src n (primeNeed kinds src n)
+    o.pulls ≤ needEndFrom kinds src n (primeNeed kinds src n))
+  || (o.pulls ≤ primeNeed kinds src n &&
+    (match o.fin with | .raised e => (primeErrs src n [] kinds).contains e | _ => false))
 
 inductive FirstObs where
   | found (v : V)
@@ -294,17 +295,15 @@ def firstRef (key : Fn) : List V → Term → Nat → FirstRef
     speak about it, and `First` re-raises it through a nested `glom` call — see C04/C20.) -/
 def checkFirst (kinds : List Kind) (src : Src) (key : Fn) (o : FirstObs) (pulls : Nat) : Bool :=
   let n := srcLen src
-  match primeErr src n [] kinds with
-  | some e => o == .raised e
-  | none =>
-    let full := det kinds src n
-    let pn := primeNeed kinds src n
-    match firstRef key full.items full.term 0 with
+  let full := det kinds src n
+  let pn := primeNeed kinds src n
+  (match firstRef key full.items full.term 0 with
     | .found v i => o == .found v && pulls ≤ needFrom kinds src n i pn
     | .keyRaised _ i => (match o with | .raised _ => true | _ => false) && pulls ≤ needFrom kinds src n i pn
     | .atEnd t =>
       o == (match t with | .eof => .default | .err e => .raised e | .more => .oof) &&
-      pulls ≤ needEndFrom kinds src n pn
+      pulls ≤ needEndFrom kinds src n pn)
+  || (pulls ≤ pn && (match o with | .raised e => (primeErrs src n [] kinds).contains e | _ => false))
 
 /-- builder purity, on observations of the implementation alone: the re-used prefix spec
     has the same repr and the same behaviour before and after specs were derived from it,
